@@ -41,7 +41,7 @@ func classesFor(w *Worker) []gram.Class {
 func forEachGrammar(w *Worker, classes []gram.Class, all bool, families bool, f func(idx int64, c *GCase)) {
 	var idx int64
 	if families {
-		for _, n := range gram.Families() {
+		for _, n := range append(gram.Families(), gram.BigFamilies()...) {
 			if w.Mine(idx) {
 				c := &GCase{Origin: "family:" + n.Name, Spec: n.Spec}
 				w.Begin(idx, c)
@@ -59,6 +59,15 @@ func forEachGrammar(w *Worker, classes []gram.Class, all bool, families bool, f 
 				c := &GCase{Origin: cl.String(), Spec: cl.SpecOf(u, rules)}
 				w.Begin(g, c)
 				f(g, c)
+				// the same rules with the groups of each nonterminal split up
+				// (S1 A1 S2 A2 ...): yacc allows a nonterminal to be defined in
+				// several places
+				if sp := splitGroups(c.Spec); sp != nil {
+					c2 := &GCase{Origin: cl.String() + "/split-groups", Spec: sp}
+					w.Begin(g, c2)
+					w.Count("split_group_orderings", 1)
+					f(g, c2)
+				}
 				if g%512 == 0 {
 					w.Recycle(g + 1)
 				}
@@ -71,6 +80,41 @@ func forEachGrammar(w *Worker, classes []gram.Class, all bool, families bool, f 
 			w.Count("class_size_"+cl.String(), n)
 		}
 	}
+}
+
+// splitGroups orders the rules round-robin over the left-hand sides (first
+// rule of every nonterminal, then the second of every nonterminal, ...), so
+// that the alternatives of one nonterminal are not adjacent. nil when that is
+// the order the rules already have.
+func splitGroups(s *gram.Spec) *gram.Spec {
+	var order []string
+	groups := map[string][]gram.Rule{}
+	for _, r := range s.Rules {
+		if _, ok := groups[r.L]; !ok {
+			order = append(order, r.L)
+		}
+		groups[r.L] = append(groups[r.L], r)
+	}
+	var out []gram.Rule
+	for k := 0; len(out) < len(s.Rules); k++ {
+		for _, l := range order {
+			if k < len(groups[l]) {
+				out = append(out, groups[l][k])
+			}
+		}
+	}
+	same := true
+	for i := range out {
+		if out[i].L != s.Rules[i].L {
+			same = false
+		}
+	}
+	if same {
+		return nil
+	}
+	cp := *s
+	cp.Rules = out
+	return &cp
 }
 
 const buildFuel = 20_000_000
